@@ -368,6 +368,75 @@ class CoreGen:
         self.count("mem:MSTORE")
         return out
 
+    def _hash_loc(self, key_items, base):
+        """the location of m[key] for the mapping at slot `base`: keccak(key ‖ base), hashed in a scratch area the
+        program does not return"""
+        return key_items + [("push", 0x1c0), "MSTORE", ("push", base), ("push", 0x1e0), "MSTORE",
+                            ("push", 64), ("push", 0x1c0), "SHA3"]
+
+    def _map_key(self):
+        r = self.rng
+        k = r.random()
+        if k < 0.5:
+            return self.arg()                                   # a symbolic key
+        if k < 0.8:
+            return [("push", r.choice([0, 1, 7, 0xABCDEF, (1 << 255) + 3]))]    # a literal key: a concrete digest
+        return [r.choice(["CALLER", "ADDRESS", "CALLVALUE"])]
+
+    def _arr_loc(self, index_items, base):
+        """the location of a[index] for the dynamic array at slot `base`: keccak(base) + index"""
+        return index_items + [("push", base), ("push", 0x1c0), "MSTORE", ("push", 32), ("push", 0x1c0), "SHA3", "ADD"]
+
+    def arr_stmt(self):
+        """a Solidity dynamic-array element access `a[i] = value` / `x = a[i]` for the arrays at the slots 7 and 8:
+        literal indices (0 included: the hash itself) and symbolic ones"""
+        r = self.rng
+        base = r.choice([7, 7, 8])
+        if not hasattr(self, "arr_idx"):
+            self.arr_idx = []
+        if self.arr_idx and r.random() < 0.5:
+            idx = r.choice(self.arr_idx)
+        else:
+            k = r.random()
+            if k < 0.5:
+                # a symbolic index; in a callee the calldata word may be a literal of the caller: masked, so that the
+                # element stays near the hash (a literal location far from every registered hash is a plain slot beyond
+                # 2^64: outside the core)
+                idx = self.arg() + ([("push", 0xFF), "AND"] if self.callee or r.random() < 0.3 else [])
+            else:
+                idx = [("push", r.choice([0, 0, 1, 2, 5, 255]))]
+            self.arr_idx.append(idx)
+        if r.random() < 0.5:
+            self.count("arr:store")
+            return self.expr(1) + self._arr_loc(idx, base) + ["SSTORE"]
+        self.count("arr:load")
+        self.count("mem:MSTORE")
+        return self._arr_loc(idx, base) + ["SLOAD", ("push", r.choice([0, 32, 64, 0x140, 0x160])), "MSTORE"]
+
+    def map_stmt(self):
+        if self.rng.random() < 0.35:
+            return self.arr_stmt()
+        return self._map_stmt()
+
+    def _map_stmt(self):
+        """a Solidity mapping access: `m[key] = value` or `x = m[key]` (stored where the final RETURN shows it) for the
+        mappings at the slots 5 and 6; equal and different keys, symbolic and literal, meet in one program"""
+        r = self.rng
+        base = r.choice([5, 5, 6])
+        if not hasattr(self, "map_keys"):
+            self.map_keys = []
+        if self.map_keys and r.random() < 0.5:
+            key = r.choice(self.map_keys)                       # the same key again
+        else:
+            key = self._map_key()
+            self.map_keys.append(key)
+        if r.random() < 0.5:
+            self.count("map:store")
+            return self.expr(1) + self._hash_loc(key, base) + ["SSTORE"]
+        self.count("map:load")
+        self.count("mem:MSTORE")
+        return self._hash_loc(key, base) + ["SLOAD", ("push", r.choice([0, 32, 64, 0x140, 0x160])), "MSTORE"]
+
     def callee_program(self):
         """a small callee: a few statements, maybe a branch on its calldata, then return / revert / invalid / stop"""
         r = self.rng
@@ -406,6 +475,8 @@ class CoreGen:
             items += self.call_site()           # a nested call (the static flag must be inherited through it)
         if r.random() < 0.12:
             items += self.create_site()         # a CREATE inside a callee: rolled back with it, the counter is not
+        for _ in range(r.choice([0, 0, 1, 2])):
+            items += self.map_stmt()            # mapping cells of the callee's account (or, delegated, of the caller's)
         for _ in range(r.randrange(0, 3)):
             items += self.stmt(1)
         k = r.random()
@@ -463,6 +534,8 @@ class CoreGen:
                     items += self.stmt(1)
                 if self.rng.random() < 0.2:
                     items += self.create_site()
+                for _ in range(self.rng.choice([0, 0, 1, 2])):
+                    items += self.map_stmt()
                 if self.rng.random() < 0.25:
                     # a call inside a loop: the caller's visit counters must survive the callee (which starts with none)
                     self.count("call:in-loop")
@@ -477,7 +550,9 @@ class CoreGen:
             items += self.stmt(2)
             if self.rng.random() < 0.15:
                 items += self.create_site()
-        if any(k.startswith("create:") for k in self.hist):
+            for _ in range(self.rng.choice([0, 0, 0, 1, 2, 3])):
+                items += self.map_stmt()
+        if any(k.startswith("create:") or k.startswith("map:") or k.startswith("arr:") for k in self.hist):
             self.count("mem:RETURN-all")
             return items + [("push", 0x1a0), ("push", 0), self.rng.choice(["RETURN", "RETURN", "REVERT"])]
         if self.rng.random() < 0.4:
@@ -574,7 +649,9 @@ def _storage(pe, ex):
                     v = val if isinstance(val, int) else int(pe.ev(val))
                     if v:
                         addrs.setdefault(a, {})[(transient, key[0])] = v
-                else:       # a non-scalar entry: outside the core, shows up as a mismatch
+                elif isinstance(key, tuple) and len(key) == 3 and (key[1], key[2]) in ((2, 512), (1, 256)) and not transient:
+                    pass    # a mapping array (Model.SevmCalls `hsto`): observed through the loads the programs make
+                else:       # another non-scalar entry: outside the core, shows up as a mismatch
                     addrs.setdefault(a, {})[(transient, -1)] = 1
     out = []
     for a in sorted(addrs):
